@@ -95,6 +95,8 @@ type session struct {
 	distincts     []string
 	history       []string
 	dead          bool
+
+	life *lifecycle // credential-lifecycle session (cfg.Life)
 }
 
 func (s *session) note(format string, a ...any) {
@@ -149,6 +151,10 @@ func (s *session) detail(extra map[string]any) map[string]any {
 		"server_args":   s.cfg.args(s.mat),
 		"round":         s.cfg.Round,
 		"recent_ops":    s.recent(),
+	}
+	if s.life != nil {
+		d["htpasswd_generation_in_place"] = s.life.gen
+		d["htpasswd_generations"] = s.life.describe()
 	}
 	for k, v := range extra {
 		d[k] = v
@@ -288,6 +294,12 @@ func (s *session) attempt(n int) (retry bool) {
 	s.tag = fmt.Sprintf("seed%d-cfg%d-round%d-try%d-%08x", r.Seed, s.idx, s.cfg.Round, n, s.rng.Uint32())
 	dir := lib.MkTemp("c13-cache")
 	defer func() { _ = os.RemoveAll(dir) }()
+	if s.life != nil {
+		if err := s.life.install(0); err != nil {
+			s.inconclusive(fmt.Sprintf("credential-lifecycle slice %s: htpasswd generation 0 could not be written: %v", s.cfg, err))
+			return false
+		}
+	}
 	child, err := lib.StartBinary(lib.BinaryOpts{Dir: dir, Args: s.cfg.args(s.mat), TLS: s.cfg.TLS})
 	if err != nil {
 		s.inconclusive(fmt.Sprintf("server did not start for %s: %v", s.cfg, err))
@@ -314,21 +326,25 @@ func (s *session) attempt(n int) (retry bool) {
 		return child.WaitExit(3 * time.Second)
 	}
 
-	before, valid, after := s.phases()
-	for _, ph := range []struct {
-		name   string
-		states []credState
-	}{{"before-valid-login", before}, {"valid", valid}, {"after-valid-login", after}} {
-		for _, cs := range ph.states {
-			if s.dead || child.Exited() {
-				break
+	if s.life != nil {
+		s.lifecyclePhases()
+	} else {
+		before, valid, after := s.phases()
+		for _, ph := range []struct {
+			name   string
+			states []credState
+		}{{"before-valid-login", before}, {"valid", valid}, {"after-valid-login", after}} {
+			for _, cs := range ph.states {
+				if s.dead || child.Exited() {
+					break
+				}
+				s.probeState(ph.name, cs)
 			}
-			s.probeState(ph.name, cs)
+			s.postCheck(ph.name)
 		}
-		s.postCheck(ph.name)
-	}
-	if s.cfg.Auth == "htpasswd" && !s.dead && !child.Exited() {
-		s.reusedConnection()
+		if s.cfg.Auth == "htpasswd" && !s.dead && !child.Exited() {
+			s.reusedConnection()
+		}
 	}
 	if s.dead {
 		child.WaitExit(3 * time.Second) // let the supervisor see the exit
@@ -344,6 +360,9 @@ func (s *session) attempt(n int) (retry bool) {
 		return true
 	}
 	s.count("cfg." + s.cfg.String())
+	if s.life != nil && s.life.finished {
+		s.count("life.sessions.completed")
+	}
 	return false
 }
 
@@ -454,6 +473,7 @@ func (s *session) postCheck(phase string) {
 			} else {
 				key = fmt.Sprintf("C13:grpc:%s:%s:unauthenticated-write-stored", p.Target, s.cfg.authName())
 			}
+			key += phaseSuffix(p.Phase)
 			s.violate(key, fmt.Sprintf("entry written without valid credentials (%s) is stored: %s", p.Cred, path),
 				s.detail(map[string]any{"write": p, "lookup": path, "lookup_status": res.Status}))
 		default:
